@@ -174,12 +174,18 @@ def zoo_shapes():
     z.append(('call-first', b'\xe8' + le32(-0x4567) + NOP * 9 + RET))
     z.append(('undecodable', bytes.fromhex('55') + bytes.fromhex('0f0b') + bytes.fromhex('d6') + NOP * 12 + RET))
     z.append(('truncated', bytes.fromhex('554889e5') + NOP * 9 + bytes.fromhex('48b8aabb')))
+    # the all-zero encoding `00 00` (ADDB AL,(AX)): x86asm reports Opcode == 0 and fixBlock skips it (finding F28)
+    z.append(('opzero-first', bytes.fromhex('0000') + PUSHBP + MOVBP + SUBSP + NOP * 8 + RET + INT3))
+    z.append(('opzero-mid', PUSHBP + MOVBP + bytes.fromhex('0000') + SUBSP + NOP * 8 + RET + INT3))
+    z.append(('opzero-then-riprel', bytes.fromhex('0000') + bytes.fromhex('488b05') + le32(0x2000) + b'\xe8' + le32(0x100) + NOP * 4 + RET))
+    z.append(('opzero-after-widen', CMPSP + bytes.fromhex('7640') + bytes.fromhex('0000') + b'\xe8' + le32(0x100) + NOP * 6 + RET))
+    z.append(('opzero-beyond-cut', PUSHBP + MOVBP + SUBSP + NOP * 8 + bytes.fromhex('0000') + RET + INT3))
     z.append(('disp-zero', bytes.fromhex('554889e5') + NOP * 7 + bytes.fromhex('7400') + NOP * 3 + RET))
     return z
 
 
 TEMPL = [bytes.fromhex(h) for h in ('55', '4889e5', '4883ec20', '90', '31c0', 'b801000000', '48b81122334455667788', '4889442408', '0f1f4000',
-                                    '488b4810', '4885c0', '48ffc8', '4c8d6c24f8', '660f1f440000')]
+                                    '488b4810', '4885c0', '48ffc8', '4c8d6c24f8', '660f1f440000', '0000')]
 RIPT = [('488b05', b''), ('488d0d', b''), ('803d', b'\x00'), ('48c705', le32(77)), ('c605', b'\x01'), ('48813d', le32(-5)), ('8b05', b''), ('48390d', b'')]
 
 
@@ -299,6 +305,17 @@ def gen_requests(tier, rng):
         for oo, to in ((0, 1024), (2048, 512)):
             reqs.append(f'c03.small {oo} {to} {rng.choice([24, 48, 64, 200, 900, 900])} {f.hex()}')
             meta.append({'kind': 'small', 'lane': 'valid', 'req': reqs[-1]})
+    # functions that end exactly where the next one begins (no INT3 padding): GetFuncSize has to stop at the next prologue,
+    # and a function whose every cut position >= jump length is followed by RET is copied WHOLE (no jump back)
+    exact = [bytes.fromhex('488b0500100000c3'), bytes.fromhex('488b0500100000488b1d00200000c3'),
+             bytes.fromhex('4885c0488b0500100000488b1d00200000c3'), bytes.fromhex('31c0ffc0ffc0ffc0ffc0ffc0ffc0c3'),
+             bytes.fromhex('48c7050010000007000000c3c3'), bytes.fromhex('4885c07440488b0500100000e800010000c3')]
+    for f in smalls[:(150 if tier == 'quick' else 3000)]:
+        exact.append(f.rstrip(b'\xcc'))
+    for f in exact:
+        oo, to = rng.choice([(0, 1024), (2048, 512)])
+        reqs.append(f'c03.small {oo} {to} {rng.choice([64, 200, 900])} {f.hex()} x')
+        meta.append({'kind': 'small', 'lane': 'valid', 'req': reqs[-1]})
     shapes = zoo_shapes()
     nrand = 1500 if tier == 'quick' else 40000
     for k in range(nrand):
@@ -336,6 +353,23 @@ def run_model(oplines, tag='c03'):
     opf = os.path.join(C.BUILD, f'{tag}.ops')
     open(opf, 'w').write('\n'.join(oplines) + '\n')
     return C.run_driver(exe, opf, os.path.join(C.BUILD, f'{tag}.model')), ''
+
+
+def opzero_in_prefix(op, r):
+    """the copied prefix contains an instruction goom's decoder reports with Opcode == 0 (flag z)"""
+    try:
+        n = int(r.split('n=')[1].split()[0])
+    except (IndexError, ValueError):
+        return False
+    pos = 0
+    for it in op.split()[6:]:
+        f = it.split(':')
+        if pos >= n:
+            break
+        if 'z' in f[3]:
+            return True
+        pos += int(f[0])
+    return False
 
 
 def classify_unfaithful(op, r):
@@ -445,7 +479,7 @@ def run(tier):
 
     stats = {'cases': len(cases), 'evaluations': 0, 'fns': 0, 'zoo': 0, 'tramp': 0, 'small': 0, 'jumpback': {}, 'faithful': 0, 'failed-clean': 0, 'skip': 0,
              'widened': 0, 'results': {}, 'verdict_classes': {}}
-    bad, diffs, jbad = [], [], []
+    bad, diffs, jbad, raw_whole, zbad = [], [], [], [], []
     nontrivial = set()
     for k, (ri, op, res, cols) in enumerate(cases):
         m = meta[ri]
@@ -460,6 +494,8 @@ def run(tier):
             stats['jumpback'][m['kind'] + ':' + jb] = stats['jumpback'].get(m['kind'] + ':' + jb, 0) + 1
             if jb in ('missing', 'jumps-elsewhere', 'prefix-differs', 'written-although-relocation-fails'):
                 jbad.append((k, op, res, jb, m))
+            if jb == 'whole-function-raw-copy':
+                raw_whole.append((k, op, res, jb, m))
             if model is not None:
                 why = tramp_check(op, res, cols, model[k])
                 if why:
@@ -479,7 +515,13 @@ def run(tier):
             if r.startswith('ok'):
                 nontrivial.add(r)
             if v.startswith('unfaithful') and m['lane'] == 'valid':
-                bad.append((k, op, r, v, m))
+                if v.startswith('unfaithful:count') and opzero_in_prefix(op, r):
+                    if not zbad:
+                        out.violation(f'the relocated copy drops the instruction `00 00` ({v}) for {m.get("name", "a function")}',
+                                      {'kind': 'impl-oracle', 'ops': [op], 'observed': r, 'verdict': v}, key='F28-opzero-dropped')
+                    zbad.append(k)
+                else:
+                    bad.append((k, op, r, v, m))
         if model is not None and model[k] != res:
             diffs.append((k, op, res, model[k], 'streams differ'))
 
@@ -502,6 +544,10 @@ def run(tier):
         out.violation(f'relocated copy is not faithful ({v}) for {m.get("name", "a function of the test binary")}' + (f' [{label}]' if label else ''),
                       {'kind': 'impl-oracle', 'ops': [op], 'observed': r, 'verdict': v, 'looks_like': label,
                        'how': 'python3 check.py C03 --replay <this file>'})
+    for k, op, res, jb, m in raw_whole[:1]:
+        out.violation('fixOriginFuncToTrampoline copied the whole function but wrote the RAW original bytes, not the relocated ones: PC-relative operands '
+                      'of the copy point to the wrong addresses', {'kind': 'jump-back', 'ops': [op], 'reqs': [m.get('req')], 'observed': res, 'verdict': jb,
+                                                                   'how': 'python3 check.py C03 --replay <this file>'}, key='F27-whole-copy-raw')
     for k, op, res, jb, m in jbad[:2]:
         out.violation(f'fixOriginFuncToTrampoline: after the relocated instructions the placeholder holds no jump back to origin+n although '
                       f'only part of the function was moved ({jb})' if jb in ('missing', 'jumps-elsewhere') else f'fixOriginFuncToTrampoline: the placeholder does not start with the relocated instructions (as the real fixRelativeAddr yields them) followed by a jump back ({jb})',
